@@ -473,7 +473,11 @@ func (s *Sim) runSchedule() {
 	for _, r := range s.plan.Restarts {
 		restartAt[r] = true
 	}
-	for s.stepNo < s.plan.MaxSteps {
+	// the step budget bounds the part of the run in which API calls are made;
+	// a C09 drain goes on until nothing is enabled or its own bound is exceeded
+	// (otherwise a ping-pong of background jobs could never exceed a bound that
+	// is larger than the budget)
+	for s.stepNo < s.plan.MaxSteps || (s.draining && s.or.on("C09") && s.drainN <= s.or.drainBound+1) {
 		en := s.enabled()
 		var st stepRef
 		var ok bool
@@ -515,7 +519,7 @@ func (s *Sim) runSchedule() {
 			return
 		}
 	}
-	if s.stepNo >= s.plan.MaxSteps {
+	if s.stepNo >= s.plan.MaxSteps && len(s.enabled()) != 0 {
 		s.res.Count("cut_by_step_budget", 1)
 	}
 }
